@@ -1,13 +1,32 @@
 #!/bin/bash
-# try_benign.sh <patch.diff> : apply a behaviour-preserving change to /repo, run every property's quick check, undo it.
+# try_benign.sh <patch.diff> [<prop>...] : apply a behaviour-preserving change to /repo, run the quick checks of the given
+# properties (default: those whose anchors the patch touches, see props_for below; ALL = every property), undo it.
 # Prints one line per property: silent | VIOLATION (concrete!) | no-failing-input-found (a broken tie).
 set -u
-P=$1
+P=$1; shift
 cd /verif
+props_for() { # properties whose code a patch touches
+  local f ps=""
+  for f in $(grep '^diff --git' "$1" | awk '{print $3}' | sed 's#^a/##'); do
+    case $f in
+      fix/encoding/*|fix/utils.go) ps="$ps C02 C03 C11 C18 C16 C10";;
+      fix/*) ps="$ps C01 C02 C03 C11 C17 C18";;
+      session/*) ps="$ps C05 C06 C07 C08 C09 C10 C14 C15 C16 C19 C20";;
+      utils/*) ps="$ps C08 C09 C15 C19 C20 C13";;
+      storages/*) ps="$ps C05 C10 C19 C20";;
+      generator/*|cmd/*|source/*) ps="$ps C12";;
+      *.go) ps="$ps C04 C05 C13 C18 C19 C20 C15";;
+    esac
+  done
+  echo $ps | tr ' ' '\n' | sort -u | tr '\n' ' '
+}
+PROPS="$*"
+[ -z "$PROPS" ] && PROPS=$(props_for "$P")
+[ "$PROPS" = "ALL" ] && PROPS="C01 C02 C03 C04 C05 C06 C07 C08 C09 C10 C11 C12 C13 C14 C15 C16 C17 C18 C19 C20"
 git -C /repo apply --check "$P" 2>/dev/null || { echo "PATCH DOES NOT APPLY: $P"; exit 2; }
 git -C /repo apply "$P"
 EVBAK=$(mktemp -d /tmp/vt_evbak.XXXX); cp -a /verif/evidence/. $EVBAK/
-for prop in C01 C02 C03 C04 C05 C06 C07 C08 C09 C10 C11 C12 C13 C14 C15 C16 C17 C18 C19 C20; do
+for prop in $PROPS; do
   out=$(./check $prop 2>&1)
   v=$(echo "$out" | grep -a "^VIOLATION" | head -3)
   if [ -z "$v" ]; then echo "$prop silent"; else
